@@ -25,7 +25,7 @@ MIN_DECISIVE = {"call-once": 50, "off-loop": 50, "environ": 50, "response": 50, 
 N = {"quick": 4000, "thorough": 40000}
 
 SHAPES = ["list", "tuple", "generator", "lazy_generator", "iter_close", "lazy_iter_close", "iterable_close_gen", "iterable_close_list", "write_callable",
-          "raise_before", "raise_after", "no_start"]
+          "raise_before", "raise_after", "no_start", "exc_info_replace", "exc_info_replace_lazy"]
 
 
 def _gen_extra(rng, tier):
@@ -300,6 +300,8 @@ def check(case, obs, tally):
                         "detail": "shape %s: status %r expected %r" % (shape, status, exp_status)})
         else:
             exp_h = [(n.lower().encode("latin-1"), v.encode("latin-1")) for n, v in t["headers"]]
+            if shape.startswith("exc_info_replace") and any(h[0] == b"x-first" for h in rheaders):
+                out.append({"clause": "response", "sig": "C17.response/replaced-response-leaked", "detail": "headers of the response that was replaced reached the client: %r" % rheaders})
             if [h for h in rheaders if h in exp_h] != exp_h:
                 out.append({"clause": "response", "sig": "C17.response/headers", "detail": "headers %r expected to contain %r in order" % (rheaders, exp_h)})
             if rbody != b"".join(t["chunks"]) or not complete:
